@@ -194,6 +194,18 @@ def observe(case, backend):
                 a, b = s.to_list(), ref.get_column("zz9").to_list()
                 if not (a == b or (not exact and sorted(map(repr, a)) == sorted(map(repr, b)))):
                     o["fail"].append(f"ColExpr.export of `{c0.name}.is_null()` differs from mutate+select+export: {a!r:.200} vs {b!r:.200}")
+        # --- an aggregate that relies on the grouping of the table the column comes from
+        if cols:
+            tg = attempt("group_by", lambda: tbl2 >> X.group_by(cols[-1]))
+            if tg is not None:
+                cg = list(tg)[0]
+                s = attempt("ColExpr.export(<grouped aggregate>)", lambda: cg.count().export(pdt.Polars()))
+                ref = attempt("grouped mutate+select", lambda: tg >> X.mutate(zz8=cg.count()) >> X.select(pdt.C.zz8) >> X.export(pdt.Polars()))
+                if s is not None and ref is not None:
+                    a, b = s.to_list(), ref.get_column("zz8").to_list()
+                    if sorted(map(repr, a)) != sorted(map(repr, b)):
+                        o["fail"].append(f"ColExpr.export of `{cg.name}.count()` on a table grouped by `{cols[-1].name}` differs from "
+                                         f"mutate+select+export of the same table: {a!r:.200} vs {b!r:.200}")
         exact = exact_full
         # --- Table(<exported frame>) reproduces data and types
         back = attempt("Table(<frame>)", lambda: pdt.Table(df) >> X.export(pdt.Polars()))
